@@ -411,18 +411,18 @@ theorem inv_readBody (cfg : Cfg) (s : St) (h : Inv s) (ha : activePc s.pc) :
   unfold readBody
   split
   · exact ⟨h, fun _ => ha⟩
-  · simp only []
-    have hi : Inv (if s.buffered > 0 then consume cfg s else s) := by
+  · split
+    · exact ⟨h, fun _ => ha⟩
+    · simp only []
+      have hi : Inv (if s.buffered > 0 then consume cfg s else s) := by
+        split
+        · exact Inv.of_core (core_consume cfg s) h
+        · exact h
+      have hpc : (if s.buffered > 0 then consume cfg s else s).pc = s.pc := by split <;> simp
+      have ha' : activePc (if s.buffered > 0 then consume cfg s else s).pc := by rw [hpc]; exact ha
+      generalize (if s.buffered > 0 then consume cfg s else s) = s1 at *
       split
-      · exact Inv.of_core (core_consume cfg s) h
-      · exact h
-    have hpc : (if s.buffered > 0 then consume cfg s else s).pc = s.pc := by split <;> simp
-    have ha' : activePc (if s.buffered > 0 then consume cfg s else s).pc := by rw [hpc]; exact ha
-    generalize (if s.buffered > 0 then consume cfg s else s) = s1 at *
-    split
-    · exact ⟨inv_finish' _ _ (inv_releaseConn cfg _ hi ha') (releaseConn_clean cfg _ hi ha'), by simp⟩
-    · split
-      · exact ⟨hi, fun _ => ha'⟩
+      · exact ⟨inv_finish' _ _ (inv_releaseConn cfg _ hi ha') (releaseConn_clean cfg _ hi ha'), by simp⟩
       · exact ⟨inv_setActive _ _ hi ha' (Or.inr (Or.inr rfl)), by simp⟩
 
 theorem inv_afterHeaders (cfg : Cfg) (s : St) (h : Inv s) (ha : activePc s.pc) :
